@@ -91,6 +91,21 @@ pub(crate) trait Session {
         payload: Payload,
     ) -> impl Future<Output = Result<Option<Disposition>, Self::Error>> + Send;
 
+    /// Account for one incoming transfer frame in the session's flow state (next-incoming-id,
+    /// remote-outgoing-window) without delivering it to a link.
+    ///
+    /// `on_incoming_transfer` is `count_incoming_transfer` followed by
+    /// `deliver_incoming_transfer`; the transactional session counts a transactional post when
+    /// the frame arrives and delivers it when the transaction is committed.
+    fn count_incoming_transfer(&mut self);
+
+    /// Deliver a transfer frame that has already been counted to its link
+    fn deliver_incoming_transfer(
+        &mut self,
+        transfer: Transfer,
+        payload: Payload,
+    ) -> impl Future<Output = Result<Option<Disposition>, Self::Error>> + Send;
+
     /// An `Ok(Some(Disposition))` means an immediate disposition should be sent back
     fn on_incoming_disposition(
         &mut self,
